@@ -946,14 +946,13 @@ def hit_filter(ctx, rule):
         e = sy.operand(t["discr"])
         if e[0] == "call" and e[1].endswith("Text::is_empty") and S.strip_refs(e[2][0]) == ("arg", 1):
             empty_sw = (bi, bt, True)
-        elif e[0] == "binop" and e[1] in ("Eq", "Ne", "Lt", "Le", "Gt", "Ge") and U.is_const(e[3]) and \
-                e[2][0] == "call" and e[2][1].endswith("::len"):
-            p = U.field_path(e[2][2][0])
+        elif U.len_test(e) is not None:
+            lt_x, lt_f = U.len_test(e)
+            p = U.field_path(lt_x)
             if p and p[0] == "arg" and p[1] == 2 and p[2] == ["rmatches"]:
-                c = S.const_value(e[3])
-                if U.cmp_eval(e[1], 0, c) != U.cmp_eval(e[1], 1, c) and U.cmp_eval(e[1], 1, c) == U.cmp_eval(e[1], 7, c):
+                if lt_f(0) != lt_f(1) and lt_f(1) == lt_f(7):
                     if nomatch_sw is None:
-                        zero_side = bt[1] if U.cmp_eval(e[1], 0, c) else bt[0]
+                        zero_side = bt[1] if lt_f(0) else bt[0]
                         nomatch_sw = (bi, zero_side)
     key = "empty-query-passes"
     if empty_sw and empty_sw[0] == 0 or (empty_sw and cfg.dominates(empty_sw[0], min(rets[True] + rets[False] + [10 ** 6]))):
@@ -1078,7 +1077,15 @@ def component_formulas(ctx, rule):
         # the loop pairs consecutive matches: zip(rmatches[..len-1], rmatches[1..])
         zips = [t for bi, t in fb.calls() if U.callee_is(t, "Iterator::zip")]
         key = "trans-consecutive"
-        if zips:
+        def over_rmatches(t_):
+            fs = set(str(x[2]) for a_ in t_["args"] for x in S.walk(sy.operand(a_)) if isinstance(x, tuple) and x and x[0] == "field")
+            return "rmatches" in fs and "qmatches" not in fs
+        wins = [t for bi, t in fb.calls() if U.callee_is(t, "<impl [T]>::windows") and len(t["args"]) > 1
+                and S.const_value(S.strip_refs(sy.operand(t["args"][1]))) == 2 and over_rmatches(t)]
+        zips = [t for t in zips if over_rmatches(t)]
+        if wins:
+            ctx.ok(rule, key, fb.where(), "gaps are computed over consecutive match pairs (windows(2))")
+        elif zips:
             ctx.ok(rule, key, fb.where(), "gaps are computed over consecutive match pairs (zip of the shifted slices)")
         else:
             ctx.fail(rule, key, fb.where(), "score_trans_down no longer pairs consecutive matches")
